@@ -123,7 +123,7 @@ Definition dec_of_Z (z : Z) : bytes :=
 
 (* ---------- small string helpers ---------- *)
 
-Fixpoint starts_with (s p : bytes) : bool :=
+Fixpoint starts_with (s p : bytes) {struct p} : bool :=
   match p with
   | [] => true
   | c :: p' => match s with x :: s' => (x =? c)%N && starts_with s' p' | [] => false end
